@@ -92,6 +92,11 @@ def step (s : St) (op : List String) (impl : String) : LineOut St :=
         | none => { state := s, model := none, monitor := some ("malformed", "unparsable concurrent output") }
       else { state := s, model := some "out …" }
     | _, _, _ => { state := s, model := some "bad-op" }
+  | ["grounds", _, _, _] =>
+    { state := s, model := none,
+      monitor := if impl == "lost=0 dup=0" then none
+                 else if impl.startsWith "lost=" then some ("line-lost-or-duplicated", s!"racing the gate opening: {impl}")
+                 else some ("malformed", impl) }
   | ["lnew", c] =>
     match c.toNat? with
     | some c => { state := { s with lw := LW.new c, cap := c, lAll := [], lReg := [] }, model := some "ok" }
